@@ -225,6 +225,10 @@ def _chain_calls(text, method):
         cb = match_close(m, ob)
         inner = text[ob + 1:cb]
         cm = re.match(r'\s*\|\s*(&?\s*[A-Za-z_][A-Za-z0-9_]*)\s*\|\s*(.*)$', inner, re.S)
+        fm = re.fullmatch(r'\s*([A-Za-z_][A-Za-z0-9_:]*)\s*', inner)
+        if not cm and fm:
+            # a function passed by name: `.any(f)` == `.any(|x| f(x))`
+            cm = re.match(r'\s*\|\s*(&?\s*[A-Za-z_][A-Za-z0-9_]*)\s*\|\s*(.*)$', '|__x| %s(__x)' % fm.group(1), re.S)
         if not cm:
             raise ExtractError('unsupported construct: closure shape in .%s(..)' % method)
         body = cm.group(2).strip()
